@@ -803,7 +803,7 @@ def run(tier, seed):
             if lb[0] != 0.0 and lb[2] > 0 and lb[1] >= lb[0] - 0.001:
                 fb.append([lb[0], 0.0, 0])
             b = fb[-1]
-            if b[1] + 1.0 / v <= b[0] or b[0] == 0.0:
+            if b[1] + 1.0 / v <= b[0] + 1e-9 or b[0] == 0.0:      # Bar.place_notes' acceptance test
                 b[1] += 1.0 / v
                 b[2] += 1
                 return True
@@ -812,8 +812,6 @@ def run(tier, seed):
         for c, value, length, depth in req:
             if c is None and depth > 0:
                 return "from-chords-nested-rest-raises"
-            if c is None and inst is not None:
-                return "rest-with-instrument-raises"
             if not probe.bars:
                 probe.bars.append(MBar("C", (4, 4)))
             lastb = probe.bars[-1]
